@@ -133,6 +133,7 @@ def oracle_script(s, out, strict=False):
             # console, so the output held back under the lock is shown now -- none of it may be lost
             if locked: flush_locked()
             if owed: expect(b'\n', 'final newline'); owed = False
+            total = 0          # the next build of the invocation (e.g. after a manifest regeneration) counts its plan from zero
         elif c[0] == 'info':
             expect(b'ninja: ' + c[1] + b'\n', 'Info line')
     if not bad and pos != len(out): bad.append('unexpected trailing bytes %r' % out[pos:pos + 80])
@@ -428,6 +429,26 @@ def run_real(ninja, sc, accept_glue):
     return [(n, bad, facts, manifest(cmds), a, style, p.stdout, p.stderr, p.returncode) for n, bad, facts, p, ran in res]
 
 # ------------------------------------------------------------------------------ proofs of the output part
+def real_regen_counters(ctx, ninja):
+    """two builds in ONE invocation share the StatusPrinter: the manifest is regenerated first ([1/1]), then the real build runs; its
+    status lines must count from zero and end with finished = total"""
+    import tempfile, shutil, subprocess, time, re
+    d = tempfile.mkdtemp(prefix='verif-c20-', dir='/dev/shm'); n = 0
+    try:
+        for k in (1, 2, 5):
+            for f in os.listdir(d): os.unlink(os.path.join(d, f))
+            open(d + '/build.ninja', 'w').write('rule regen\n  command = touch build.ninja\n  generator = 1\nbuild build.ninja: regen gen.in\nrule t\n  command = touch $out\n' +
+                                                ''.join('build o%d: t%s\n' % (i, ' o%d' % (i - 1) if i else '') for i in range(k)))
+            time.sleep(0.06); open(d + '/gen.in', 'w').write('x')
+            p = subprocess.run([ninja, '-C', d], stdout=subprocess.PIPE, stderr=subprocess.STDOUT, timeout=60); n += 1
+            cnt = re.findall(r'^\[(\d+)/(\d+)\]', p.stdout.decode(errors='replace'), flags=re.M)
+            if p.returncode != 0 or len(cnt) != k + 1: continue
+            if any(int(a) > int(b) for a, b in cnt) or cnt[-1] != (str(k), str(k)) or cnt[0] != ('1', '1'):
+                ctx.violation('counters-regeneration', 'real binary: manifest with a generator statement whose input is newer, then %d commands\n%s' % (k, open(d + '/build.ninja').read()),
+                              'after the manifest was regenerated in the same invocation the successful build reports %s (finished must reach the total: [%d/%d])' % (['[%s/%s]' % c for c in cnt], k, k))
+    finally: shutil.rmtree(d, ignore_errors=True)
+    return n
+
 def check_out_proofs(ctx):
     """Properties_C20out.v and what it rests on (tools/check only knows Properties_C20.v)"""
     import importlib.util
@@ -596,6 +617,7 @@ def run(ctx):
     t0 = time.time()
     scs = real_scenarios(rnd, quick)
     facts = dict(glued=0, blocks=0, failed=0, console=0, pruned=0, runs=0)
+    facts['regeneration_runs'] = real_regen_counters(ctx, ninja)
     glue_example = None
     with concurrent.futures.ThreadPoolExecutor(max_workers=6) as ex:
         for results in ex.map(lambda sc: run_real(ninja, sc, accept_glue), scs):
